@@ -173,6 +173,7 @@ def c13(A, ctx, tier):
     history.r_unbound(A, ctx, dict(floor=20))
     plumb.r_who(A, ctx, dict(floor=13))
     misc.r_sparsetest(A, ctx, dict(floor=15))
+    misc.r_selfdiff(A, ctx, {})
     ctx.assume("accepted cells returning finite certified values is numerical (C01/C19)")
     return dict(explanation="every cell of the solver x datafit x penalty x storage x knob "
                 "matrix is classified statically: refused by validation, or accepted with "
